@@ -291,9 +291,47 @@ theorem hd_cases (rest : List Nat) : rest = [] ∨ ∃ c r, rest = c :: r ∧ hd
   | nil => exact Or.inl rfl
   | cons c r => exact Or.inr ⟨c, r, rfl, rfl⟩
 
+/-- the position of the decimal point the text denotes: `0.d₁d₂… · 10^dpTrue` -/
+def dpTrue (t : Token) : Int := ((strip (allDigits t)).length : Int) - (fracLen t : Int) + expVal t.exp
+
+/-- `SetOut` without the decimal point -/
+structure SetOutB (d : Decimal) (t : Token) : Prop where
+  wf : WF d
+  neg : d.neg = t.neg
+  nd : d.nd = min (strip (allDigits t)).length 800
+  dnat : Dnat d = t.mantissa / 10 ^ ((strip (allDigits t)).length - 800)
+  trunc : d.trunc = decide (t.mantissa % 10 ^ ((strip (allDigits t)).length - 800) ≠ 0)
+  mlo : 0 < (strip (allDigits t)).length → 10 ^ ((strip (allDigits t)).length - 1) ≤ t.mantissa
+  mhi : t.mantissa < 10 ^ (strip (allDigits t)).length
+
+theorem SetOutB.toSetOut {d : Decimal} {t : Token} (h : SetOutB d t) (hdp : d.dp = dpTrue t) : SetOut d t :=
+  ⟨h.wf, h.neg, h.nd, h.dnat, h.trunc, hdp, h.mlo, h.mhi⟩
+
+theorem allDigits_le_len (t : Token) : (allDigits t).length ≤ t.len ∧ fracLen t ≤ (allDigits t).length := by
+  unfold allDigits fracLen Token.len
+  cases t.fracDigits with
+  | none => simp [fracBytes]; omega
+  | some fs => simp [fracBytes]; omega
+
+theorem clampDp_cases (x : Int) :
+    clampDp x = x ∨ (x > 1000000 ∧ clampDp x = 1000000) ∨ (x < -1000000 ∧ clampDp x = -1000000) := by
+  unfold clampDp
+  by_cases h1 : x > 1000000
+  · rw [if_pos h1]; exact Or.inr (Or.inl ⟨h1, rfl⟩)
+  · rw [if_neg h1]
+    by_cases h2 : x < -1000000
+    · rw [if_pos h2]; exact Or.inr (Or.inr ⟨h2, rfl⟩)
+    · rw [if_neg h2]; exact Or.inl rfl
+
+/-- **`SetDecimal` on a token**: the digits as in `SetOutB`; the decimal point is the true one, or — when that is
+    beyond `±10^6` — clamped to `±10^6` on the same side.  (A written exponent of `10^16` or more saturates the 64-bit
+    accumulator at `10^15 … 10^16`; with fewer than `2^32` bytes of digits that is still clamped on the right side.) -/
 theorem setDecimal_token (txt : List Nat) (t : Token) (h : scanToken txt = some t)
-    (hg : nativeGuard t (txt.drop t.len) = true) (hexp : (expVal t.exp).natAbs < 100000) :
-    SetOut (setDecimal txt) t := by
+    (hg : nativeGuard t (txt.drop t.len) = true)
+    (hlen : (expVal t.exp).natAbs < 10000000000000000 ∨ t.len < 2 ^ 32) :
+    SetOutB (setDecimal txt) t ∧
+    ((setDecimal txt).dp = dpTrue t ∨ (dpTrue t > 1000000 ∧ (setDecimal txt).dp = 1000000) ∨
+      (dpTrue t < -1000000 ∧ (setDecimal txt).dp = -1000000)) := by
   obtain ⟨hids, hidne, hfds, hcase⟩ := scanToken_struct txt t h
   obtain ⟨c0, ids', hc0⟩ : ∃ c0 ids', t.intDigits = c0 :: ids' := by
     cases hi : t.intDigits with
@@ -320,12 +358,11 @@ theorem setDecimal_token (txt : List Nat) (t : Token) (h : scanToken txt = some 
     · exact (isD_iff c).2 (hfdsr c h1)
   obtain ⟨hmlo, hmhi⟩ := strip_bounds (allDigits t) hall
   -- common finish
-  have fin : ∀ d : Decimal, SInv d (strip (allDigits t)) → d.neg = t.neg →
-      d.dp = ((strip (allDigits t)).length : Int) - (fracLen t : Int) + expVal t.exp → SetOut d t := by
-    intro d hinv hneg hdp
+  have fin : ∀ d : Decimal, SInv d (strip (allDigits t)) → d.neg = t.neg → SetOutB d t := by
+    intro d hinv hneg
     obtain ⟨h1, h2, h3, h4⟩ := sinv_out d _ hinv
     rw [digitsVal_strip] at h3 h4
-    exact ⟨h1, hneg, h2, h3, h4, hdp, hmlo, hmhi⟩
+    exact ⟨h1, hneg, h2, h3, h4, hmlo, hmhi⟩
   rcases hcase with ⟨hex, rest, htxt, hnoE, hnd1, hnd2⟩ |
       ⟨ce, sg, eds, es, rest, hex, htxt, hce, hsg, heds, hedsne, hrest⟩
   · -- no exponent part
@@ -365,12 +402,10 @@ theorem setDecimal_token (txt : List Nat) (t : Token) (h : scanToken txt = some 
       rw [htxt, List.append_assoc, List.append_assoc, hc0, List.cons_append, setDecimal_sgn t.neg c0 _ hc0d,
         ← List.cons_append, ← hc0, ← List.append_assoc, hfracB, hl, finishSet_noexp d sd dr rest hstop.2]
     rw [hset]
-    exact fin _ hinv hneg (by rw [hdp, hex]; simp only [expVal, fracLen, allDigits]; omega)
+    refine ⟨fin _ hinv hneg, Or.inl ?_⟩
+    rw [hdp, dpTrue, hex]; simp only [expVal, fracLen, allDigits]; omega
   · -- exponent part
-    have hval : digitsVal eds < 100000 := by
-      rw [hex] at hexp
-      simp only [expVal] at hexp
-      rcases hsg with ⟨_, h2⟩ | ⟨_, h2⟩ | ⟨_, h2⟩ <;> subst h2 <;> omega
+    have hedsr := range_of_isD _ heds
     have hstop : Stops (ce :: (sg ++ eds ++ rest)) :=
       Or.inr ⟨ce, _, rfl, by rcases hce with h | h <;> subst h <;> decide, by omega⟩
     obtain ⟨d, sd, dr, hl, hinv, hneg, hdp⟩ := setLoop_mantissa t.neg t.intDigits (t.fracDigits.getD [])
@@ -383,15 +418,44 @@ theorem setDecimal_token (txt : List Nat) (t : Token) (h : scanToken txt = some 
       · exact Or.inl hr
       · rw [hhd] at hrest; exact Or.inr ⟨c, r, hr, hrest⟩
     have hset : setDecimal txt = { (if sd then d else { d with dp := (d.nd : Int) + dr }) with
-        dp := (if sd then d else { d with dp := (d.nd : Int) + dr }).dp + (digitsVal eds : Int) * es } := by
+        dp := clampDp ((if sd then d else { d with dp := (d.nd : Int) + dr }).dp +
+          Sonic.Proofs.Number.capAcc 0 eds * es) } := by
       rw [htxt, List.append_assoc, List.append_assoc, hc0, List.cons_append, setDecimal_sgn t.neg c0 _ hc0d,
         ← List.cons_append, ← hc0, ← List.append_assoc, hfracB, hl,
-        finishSet_exp d sd dr ce sg eds rest es hce hsg (range_of_isD _ heds) hedsne hval hrest']
+        finishSet_exp d sd dr ce sg eds rest es hce hsg hedsr hedsne hrest']
     rw [hset]
-    refine fin _ ⟨hinv.size, hinv.nd, hinv.arr, hinv.trunc, hinv.fault, hinv.sigd, hinv.lead⟩ hneg ?_
+    refine ⟨fin _ ⟨hinv.size, hinv.nd, hinv.arr, hinv.trunc, hinv.fault, hinv.sigd, hinv.lead⟩ hneg, ?_⟩
     simp only
-    rw [hdp, hex]
-    simp only [expVal, fracLen, allDigits]
-    rw [Int.mul_comm]
+    rw [hdp]
+    have hdpT : dpTrue t = ((strip (t.intDigits ++ t.fracDigits.getD [])).length : Int)
+        - ((t.fracDigits.getD []).length : Int) + es * (digitsVal eds : Int) := by
+      rw [dpTrue, hex]; simp only [expVal, fracLen, allDigits]
+    rw [hdpT]
+    have hes : es = 1 ∨ es = -1 := by
+      rcases hsg with ⟨_, h2⟩ | ⟨_, h2⟩ | ⟨_, h2⟩ <;> simp [h2]
+    by_cases hsmall : digitsVal eds < 10000000000000000
+    · rw [Sonic.Proofs.Number.capAcc_zero eds heds hsmall, Int.mul_comm]
+      exact clampDp_cases _
+    · -- the accumulator saturated
+      have hbig : 10000000000000000 ≤ digitsVal eds := by omega
+      have hcap := Sonic.Proofs.Number.capAcc_zero_big eds heds hbig
+      have hcap2 := (Sonic.Proofs.Number.capAcc_zero_bound eds heds).2
+      have htl : t.len < 2 ^ 32 := by
+        rcases hlen with hl1 | hl1
+        · rw [hex] at hl1; simp only [expVal] at hl1
+          rcases hes with h1 | h1 <;> rw [h1] at hl1 <;> omega
+        · exact hl1
+      obtain ⟨hD1, hD2⟩ := allDigits_le_len t
+      have hS := strip_length_le (allDigits t)
+      simp only [allDigits, fracLen] at hD1 hD2 hS
+      have hdv : (10000000000000000 : Int) ≤ (digitsVal eds : Int) := by exact_mod_cast hbig
+      unfold clampDp
+      rcases hes with h1 | h1 <;> subst h1
+      · right; left
+        refine ⟨by omega, ?_⟩
+        rw [if_pos (by omega)]
+      · right; right
+        refine ⟨by omega, ?_⟩
+        rw [if_neg (by omega), if_pos (by omega)]
 
 end Sonic.Proofs.Dec
